@@ -173,6 +173,9 @@ def call_function(it, fn, args, kwargs):
             it.used.add(c.qualname)
             return run_body(it, fn, bound)
         if c.at_calls == 'abstract':
+            if _all_structured(bound):
+                it.used.add(c.qualname)
+                return run_body(it, fn, bound)      # nothing opaque: the real body decides
             return abstract_call(it, c, fn, bound)
         return call_by_contract(it, c, fn, bound)
     if top in ('spec', 'contracts', 'pyvc'):
@@ -209,6 +212,23 @@ def make_old(it, bound):
 
 
 _UF = {}
+
+
+def _all_structured(bound):
+    """Every text argument is concrete or structured without opaque parts (each unknown piece has a
+    finite character set, e.g. a letter in either case or a run of blanks)."""
+    from .strings import XStr, Atom
+    seen = False
+    for v in bound.values():
+        if isinstance(v, str):
+            seen = True
+        elif isinstance(v, XStr):
+            seen = True
+            if any(isinstance(p, Atom) and p.only is None for _, p in v.segs):
+                return False
+        elif type(v).__name__ in ('SDecoded', 'AbsLine'):
+            return False
+    return seen
 
 
 def abstract_call(it, c, fn, bound):
@@ -650,6 +670,10 @@ def intrinsic(it, name, args, kwargs):
         return json_conforms(it, args[0], args[1], '$')
     if name == 'json_text':
         return it.models_mod._json_dumps(it, args[0])
+    if name == 'local_assigned':
+        fr_, nm = args
+        v = fr_.fields.get(nm, UNBOUND)
+        return not (v is UNBOUND or v is V.LOOP_UNKNOWN)
     if name == 'starts_with':
         from .strings import XStr
         x, lit = args
